@@ -30,6 +30,7 @@ Proof.
   all: try match goal with g : bool |- _ => destruct g end.
   all: red1; cbn [wl w app].
   all: redch.
+  all: try (clear - I2 I4 I6 I11 I15 CV NF1 CVN; lia).
   all: try lia.
 Qed.
 
